@@ -84,6 +84,8 @@ def frames():
     mb, _, _ = R.build("1074", {"DF394": sat2, "DF395": sig2, "DF396": 0b1111}, "fp")
     out["FmsmA"] = frame_item("FmsmA", ma)
     out["FmsmB"] = frame_item("FmsmB", mb)
+    m64, _, _ = R.build("1077", {"DF394": (1 << 62) | 1, "DF395": 1 << 30, "DF396": 0b11}, "fp")
+    out["Fmsm64"] = frame_item("Fmsm64", m64)  # satellite ID 64 (last mask bit) present
     _CACHE["frames"] = out
     return out
 
@@ -100,7 +102,7 @@ def wellformed(tier="quick"):
         {"name": "ubx8", "data": ubx(b"\xd3\x00\xb5\x62\x24\x47\x0a\xd3"), "kind": "skip"},
         {"name": "nFF0A62", "data": b"\xff\x0a\x62", "kind": "skip"},
         {"name": "nmeaP", "data": nmea("P", b"UBX,00,1*00"), "kind": "skip"},
-        f["Fnested"], f["Fcol1"], f["Fcol2"], f["FmsmA"], f["FmsmB"],
+        f["Fnested"], f["Fcol1"], f["Fcol2"], f["FmsmA"], f["FmsmB"], f["Fmsm64"],
     ]
     if tier == "thorough":
         out += [f["F2b"], f["F255"], f["F256"],
@@ -142,6 +144,13 @@ def hostile():
     out.append({"name": "Fshort1", "data": pinned.frame(b"\x3e")})
     for k in (3, 4, 5, 7):
         out.append({"name": f"trunc{k}", "data": f2[:k]})
+    # frame-like items whose trailer is only "valid" when bytes left over from an aborted frame
+    # are glued in front of them (state kept across an error path); each is invalid as it stands
+    for nm, stale in (("Gstale3", f2[:3]), ("Gstale4", f2[:4]), ("Gstale19", frames()["F19"]["data"][:3])):
+        body = b"\xd3\x00\x03" + unknown_payload(3, 4040)
+        crc = pinned.crc24q_table(stale + body).to_bytes(3, "big")
+        if pinned.crc24q_table(body + crc) != 0:
+            out.append({"name": nm, "data": body + crc})
     for it in out:
         it["kind"] = "hostile"
     return out
